@@ -254,8 +254,11 @@ func retainRecurseSearch(root *node, levels []string, retained *[]*mqttp.Publish
 			return
 		case topicstypes.SWC:
 			// If '+', check all nodes at this level. Next levels must be matched.
-			for _, n := range root.children {
-				retainRecurseSearch(n, levels[1:], retained)
+			for t, n := range root.children {
+				// a wildcard in the first level never matches a '$' topic
+				if root.parent != nil || !strings.HasPrefix(t, "$") {
+					retainRecurseSearch(n, levels[1:], retained)
+				}
 			}
 		default:
 			if n, ok := root.children[levels[0]]; ok {
